@@ -76,6 +76,14 @@ impl Client {
         for c in chunks { v.extend(c.data); }
         (self.req, v)
     }
+    /// a message that carries the sequence number of the chunk sent before it (0 if there was none): a replayed number
+    pub fn stale(&mut self, msg: SupportedMessage) -> Vec<u8> {
+        self.req += 1;
+        let chunks = Chunker::encode(self.seq, self.req, 0, 0, &self.sc, &msg).expect("encode");
+        let mut v = Vec::new();
+        for c in chunks { v.extend(c.data); }
+        v
+    }
     pub fn open(&mut self, renew: bool, pv: u32) -> (u32, Vec<u8>) {
         let m = OpenSecureChannelRequest {
             request_header: Self::header(1),
